@@ -6,6 +6,7 @@ package env
 import (
 	"crypto/tls"
 	"fmt"
+	"io"
 	"log"
 	"math/rand"
 	"net"
@@ -97,6 +98,12 @@ func NewWorld(t *sim.Tape, dir string) *World {
 	w := &World{S: sim.New(t), T: t, Dir: dir, Log: &LogBuf{Echo: os.Getenv("SIM_LOG") != ""}, Host: map[string]*Host{}}
 	log.SetFlags(0)
 	log.SetOutput(w.Log)
+	if sim.RaceEnabled {
+		// the standard logger takes a mutex around every write, which orders any two
+		// goroutines that log and hides races from the detector; a discarding logger
+		// returns before taking it
+		log.SetOutput(io.Discard)
+	}
 	simhook.Simulated.Store(true)
 	simhook.Gen.Add(1)
 	protocol.SimReset()
